@@ -205,6 +205,11 @@ def st_interp(draw):
         else:
             more.append([draw(st_word) for _ in hs])
     hs = [h.upper() if draw(st.integers(0, 9)) == 0 else h for h in hs]
+    if draw(st.integers(0, 5)) == 0:
+        # a header and a would-be placeholder that are canonically equivalent but not equal (NFC vs NFD)
+        import unicodedata
+        hs[0] = draw(st.sampled_from(["caf\u00e9", "\u00c5", "\u00f1o", "\u1e9b\u0323"]))
+        ts = ts + ["<" + unicodedata.normalize("NFD", hs[0]) + ">", "<" + unicodedata.normalize("NFKC", hs[0]) + "> <" + hs[0] + ">"]
     return {"sub": "interp", "headers": hs, "values": vs, "templates": ts + ["<" + hs[0].swapcase() + ">", "<" + hs[0].replace("k", "\u212a") + ">"], "second_block": second, "more_rows": more}
 
 
